@@ -334,15 +334,20 @@ Inductive reachable_b (fx : bool) (e : env) (bs0 : list board) (modes : list (li
 | rb_init : reachable_b fx e bs0 modes (init bs0 modes)
 | rb_step s b : reachable_b fx e bs0 modes s -> byte b -> reachable_b fx e bs0 modes (fst (step fx e s b)).
 
+Lemma reachable_b_bytes fx e bs0 modes s :
+  Forall board_bytes bs0 -> reachable_b fx e bs0 modes s -> bs (msg s) /\ dev_bytes (dv s).
+Proof.
+  intros H0 Hr. induction Hr as [|s0 b0 Hr0 IH Hb0]; [split; [constructor|exact H0]|].
+  destruct IH as [Hm Hd]. destruct (db_step_bytes fx e s0 b0 Hb0 Hm Hd) as (H1 & H2 & _). split; assumption.
+Qed.
+
 Theorem db_reply_charset fx e bs0 modes s b r :
   Forall board_bytes bs0 -> reachable_b fx e bs0 modes s -> byte b ->
   snd (step fx e s b) = OReply r -> bs r /\ ends_with crlf r = true.
 Proof.
   intros H0 Hr Hb Hrep.
-  assert (Hs : bs (msg s) /\ dev_bytes (dv s)).
-  { induction Hr as [|s0 b0 Hr0 IH Hb0]; [split; [constructor|exact H0]|].
-    destruct IH as [Hm Hd]. destruct (db_step_bytes fx e s0 b0 Hb0 Hm Hd) as (H1 & H2 & _). split; assumption. }
-  destruct Hs as [Hm Hd]. destruct (db_step_bytes fx e s b Hb Hm Hd) as (_ & _ & H3). split; [apply H3; exact Hrep|].
+  destruct (reachable_b_bytes fx e bs0 modes s H0 Hr) as [Hm Hd].
+  destruct (db_step_bytes fx e s b Hb Hm Hd) as (_ & _ & H3). split; [apply H3; exact Hrep|].
   unfold step in Hrep. destruct (b =? LF); [|discriminate Hrep].
   destruct (exec fx e (dv s) (decode (drop_last (msg s)))) as [d' o] eqn:E. cbn [snd] in Hrep. subst o.
   eapply db_reply_crlf. exact E.
